@@ -91,6 +91,9 @@ func (o c16HOp) apply(e *casbin.Enforcer) (res string) {
 	case "BuildRoleLinks":
 		err = e.BuildRoleLinks()
 		ok = true
+	case "ClearPolicy":
+		e.ClearPolicy()
+		ok = true
 	case "ModelRemoveAndRebuild":
 		// the manual way: edit the model's rule list, then rebuild the role links from it
 		ok, err = e.GetModel().RemovePolicy("g", "g", a)
@@ -315,6 +318,12 @@ func (g *c16HGen) next(links [][3]string, policy [][]string) c16HOp {
 		}
 		return g.next(links, policy)
 	default:
+		if len(links) > 0 && len(policy) > 0 && rng.Intn(4) == 0 {
+			// wipe everything, then grant the first listed permission again (no role links): what
+			// was reachable through roles before must be gone from Enforce as from the listings
+			g.pending = append([]c16HOp{{K: "AddPermissionForUser", A: append([]string(nil), policy[0]...)}}, g.pending...)
+			return c16HOp{K: "ClearPolicy"}
+		}
 		if len(links) > 0 && rng.Intn(3) > 0 {
 			l := links[rng.Intn(len(links))]
 			return c16HOp{K: "ModelRemoveAndRebuild", A: g.grule(l[0], l[1], l[2])}
